@@ -14,7 +14,7 @@ RULE = (
     "complete product field catalogue (all admissible plane-wave vectors x amplitudes x offsets x phases; droplet fields; all non-constant "
     "{0,1} fields on 6 and 2x3 cells) x spacing {1e-3, 1/32, 0.39, 1, 3, 10, 100} x scaling {-2, 0.5, 1e3} x shifts x methods; "
     "the reference spacing is 1; non-trivial = field is not constant"
-    "; anisotropic equal-count grids; every shift of every 3x4 / 4x3 binary image and of a bar family for the counting method; bright+dim droplet family x every threshold rule x scales 2^-40..1e12; grid-sequence histories; spacings 1e-10..2e6 incl. consecutive analyses at 1e-10, 1e-9, 2e-9; knife-edge screen from an own FFT spectrum"
+    "; anisotropic equal-count grids; every shift of every 3x4 / 4x3 binary image and of a bar family for the counting method; bright+dim droplet family x every threshold rule x scales 2^-40..1e12; grid-sequence histories; spacings 1e-10..2e6 incl. consecutive analyses at 1e-10, 1e-9, 2e-9; knife-edge screen from an own FFT spectrum; droplet counting on partly periodic boxes under every translation along the periodic axis"
 )
 ASSUMPTIONS = [
     "periodic Cartesian grids; stretch factors restricted to the spacing menu; peak clause only for resolved single plane waves",
@@ -25,11 +25,11 @@ SCALES = [-2.0, 0.5, 1e3]
 TWO_PI = 2 * math.pi
 
 
-def grid_of(shape, dx, aspect=None):
+def grid_of(shape, dx, aspect=None, periodic=None):
     from pde import CartesianGrid
 
     aspect = aspect or [1.0] * len(shape)
-    return CartesianGrid([(0, n * dx * a) for n, a in zip(shape, aspect)], shape, periodic=True)
+    return CartesianGrid([(0, n * dx * a) for n, a in zip(shape, aspect)], shape, periodic=True if periodic is None else list(periodic))
 
 
 def blocks(tier, seed):
@@ -47,11 +47,17 @@ def blocks(tier, seed):
         for b0 in (0, 1):
             for b1 in (0, 1):
                 out.append({"kind": "shift-detect", "shape": shape, "prefix": [b0, b1]})
+                if len(shape) == 2:
+                    # partly periodic boxes: translations along the periodic axis only
+                    for mask in ([True, False], [False, True]):
+                        out.append({"kind": "shift-detect", "shape": shape, "prefix": [b0, b1], "mask": mask})
     # elongated domains whose equal-volume spheres overlap: the overlap removal has to discard several of them
     for l0 in BAR_LENGTHS:
         for l1 in BAR_LENGTHS:
             if l0 == 0 or l0 != l1:
                 out.append({"kind": "bars", "first": l0, "second": l1, "tier": tier})
+                if l0 == 0:
+                    out.append({"kind": "bars", "first": l0, "second": l1, "tier": tier, "mask": [True, False]})
     for part in ("base", "rules", "gridseq"):
         out.append({"kind": "droplets", "seedv": seed % 3, "part": part})
     out.append({"kind": "nonconvex"})
@@ -121,14 +127,20 @@ def cases(block):
             lens = [block["first"], block["second"]] + list(rest)
             used = [l for l in lens if l]
             if len(used) >= 2 and len(set(used)) == len(used):
-                yield {"kind": "bars", "shape": [20, 20], "lengths": lens, "all_shifts": block["tier"] == "thorough"}
+                c = {"kind": "bars", "shape": [20, 20], "lengths": lens, "all_shifts": block["tier"] == "thorough"}
+                if block.get("mask"):
+                    c["mask"] = block["mask"]
+                yield c
     elif block["kind"] == "shift-detect":
         shape = block["shape"]
         n = int(np.prod(shape))
         for rest in itertools.product((0, 1), repeat=n - 2):
             bits = list(block["prefix"]) + list(rest)
             if 0 < sum(bits) < n:
-                yield {"kind": "shift-detect", "shape": shape, "bits": bits}
+                c = {"kind": "shift-detect", "shape": shape, "bits": bits}
+                if block.get("mask"):
+                    c["mask"] = block["mask"]
+                yield c
     elif block["kind"] == "nonconvex":
         for name in ("horseshoe", "ring+dot", "comb"):
             yield {"kind": "nonconvex", "shape": [14, 12], "name": name}
@@ -227,7 +239,7 @@ def run_case(case, ctx):
     def ls(data, dx, method, **kw):
         ctx.op()
         try:
-            fld = ScalarField(grid_of(shape, dx, aspect), data)
+            fld = ScalarField(grid_of(shape, dx, aspect, case.get("mask")), data)
             image = fld.data.tobytes()
             out = float(get_length_scale(fld, method=method, **kw))
             if fld.data.tobytes() != image:
@@ -240,10 +252,16 @@ def run_case(case, ctx):
         from mcx import geom
 
         # screen ties: the greedy removal (closest pair first, smaller one goes) is order independent only without ties
-        comps = geom.components(f > 0.5, [True, True])
+        pmask = case.get("mask") or [True, True]
+        if case.get("mask"):
+            ctx.count("partly-periodic-boxes")
+        comps = geom.components(f > 0.5, pmask)
+        if any(c["winding"] for c in comps):
+            ctx.skip("winding-domain")
+            return
         rad = [math.sqrt(len(c["cells"]) / math.pi) for c in comps]
         cen = [np.mean(np.array(c["unwrapped"], float) + 0.5, axis=0) for c in comps]
-        g = {"kind": "cart", "shape": list(shape), "dx": [1.0, 1.0], "origin": [0.0, 0.0], "periodic": [True, True]}
+        g = {"kind": "cart", "shape": list(shape), "dx": [1.0, 1.0], "origin": [0.0, 0.0], "periodic": pmask}
         S = sorted(geom.point_dist(g, cen[i], cen[j]) - rad[i] - rad[j] for i in range(len(comps)) for j in range(i + 1, len(comps)))
         if any(b - a < 1e-9 for a, b in zip(S, S[1:])) or any(abs(s_) < 1e-9 for s_ in S):
             ctx.skip("knife-edge:tied-surface-distances")
@@ -252,7 +270,7 @@ def run_case(case, ctx):
             ctx.count("fields-with->=2-overlapping-sphere-pairs")
         base = ls(f, 1.0, "droplet_detection")
         t = dict(tags, method="droplet_detection", has_winding_component=False)
-        cols = range(shape[1]) if case.get("all_shifts") else (0, 7)
+        cols = (range(shape[1]) if case.get("all_shifts") else (0, 7)) if pmask[1] else (0,)
         for sh in itertools.product(range(shape[0]), cols):
             if any(sh):
                 val = ls(np.roll(f, sh, axis=(0, 1)), 1.0, "droplet_detection")
@@ -267,11 +285,14 @@ def run_case(case, ctx):
 
         base = ls(f, 1.0, "droplet_detection")
         # a domain that winds around a periodic axis has no translation-covariant centre in the library (recorded finding)
-        wind = any(c["winding"] for c in geom.components(f > 0.5, [True] * dim))
+        pmask = case.get("mask") or [True] * dim
+        if case.get("mask"):
+            ctx.count("partly-periodic-boxes")
+        wind = any(c["winding"] for c in geom.components(f > 0.5, pmask))
         t = dict(tags, method="droplet_detection", has_winding_component=bool(wind))
         if wind:
             ctx.count("images-with-winding-domain")
-        for sh in itertools.product(*[range(n) for n in shape]):
+        for sh in itertools.product(*[(range(n) if p_ else (0,)) for n, p_ in zip(shape, pmask)]):
             if any(sh):
                 val = ls(np.roll(f, sh, axis=tuple(range(dim))), 1.0, "droplet_detection")
                 same = (not isinstance(val, str)) and (not isinstance(base, str)) and (val == base or abs(val - base) <= 1e-9 * abs(base))
@@ -368,5 +389,5 @@ def run_case(case, ctx):
 
 
 def expected_positive(tier):
-    return ["C17.stretch", "C17.field-scale", "C17.shift", "C17.peak", "C17.detection", "non-constant-field", "equal-cell-counts-different-spacings",
+    return ["C17.stretch", "C17.field-scale", "C17.shift", "C17.peak", "C17.detection", "non-constant-field", "equal-cell-counts-different-spacings", "partly-periodic-boxes",
             "translated-images-with-droplets", "fields-with->=2-overlapping-sphere-pairs", "grid-sequences", "fields-where-threshold-rules-disagree"]
